@@ -861,6 +861,69 @@ def G14_view_mutation(repo, clause, scope=ALL_LIB):
     return obs
 
 
+def G15_order_and_bucket_pitfalls(repo, clause, scope=ALL_LIB):
+    """(a) `X[mask] = list(D.values())` / `X[sorted keys] = D.values()`: a boolean mask (or sorted index) enumerates positions in ASCENDING order, a dict enumerates
+        its values in INSERTION order - the two agree only for a dict that happens to be filled in ascending key order.
+    (b) coordinates rounded to the resolution of a tolerance and used as dictionary keys / set members do NOT implement `distance < tolerance`: two points closer
+        than the tolerance fall into different buckets whenever a bucket boundary lies between them (1.500004 and 1.500006 at five decimals)."""
+    obs = []
+    fns = _scope_fns(repo, scope)
+    n = 0
+    for fn in fns:
+        # (a)
+        for a in [x for x in fn.own_nodes() if isinstance(x, ast.Assign) and len(x.targets) == 1 and isinstance(x.targets[0], ast.Subscript)]:
+            v = a.value
+            inner = v.args[0] if isinstance(v, ast.Call) and call_name(v) in ("list", "array", "asarray", "tuple", "fromiter") and v.args else v
+            if not (isinstance(inner, ast.Call) and isinstance(inner.func, ast.Attribute) and inner.func.attr == "values" and not inner.args):
+                continue
+            dname = ast.unparse(inner.func.value)
+            idx = expand(fn, a.targets[0].slice)
+            idx_txt = ast.unparse(idx)
+            # the selector: a boolean mask / flatnonzero / sorted(...) built from the same dict's keys
+            from_keys = (dname + ".keys()") in idx_txt or ("sorted(" + dname) in idx_txt
+            masky = isinstance(a.targets[0].slice, ast.Name) and any(
+                isinstance(d, ast.Assign) and any(isinstance(t, ast.Subscript) and isinstance(t.value, ast.Name) and t.value.id == a.targets[0].slice.id for t in d.targets)
+                and dname in ast.unparse(d.targets[0]) for d in fn.own_nodes())
+            direct_keys = idx_txt.replace(" ", "") in ("list(%s.keys())" % dname, "list(%s)" % dname, "%s.keys()" % dname)
+            if direct_keys or not (from_keys or masky):
+                continue
+            n += 1
+            obs.append(Ob("G15", clause, fn, a, False,
+                          "`%s` in %s pairs positions selected in ASCENDING order with the values of `%s` in INSERTION order: for a map filled in another order (e.g. {2: 3, 0: 2}) "
+                          "the values land on the wrong entries" % (ast.unparse(a)[:70], fn.qualname, dname), slot="mask-vs-dict-order:%s" % fn.qualname, positive="robust"))
+        # (b)
+        tol_params = [p for p in fn.params if any(k in p.lower() for k in ("delta", "atol", "tol", "eps"))]
+        if tol_params:
+            for c in [x for x in fn.all_nodes() if isinstance(x, ast.Call) and call_name(x) in ("round", "around", "rint") and x.args]:
+                # does the rounded value become (part of) a dict key / set member / tuple used as key?
+                holder = fn
+                for f2 in repo.all_fns():
+                    if f2.outer is fn and any(y is c for y in ast.walk(f2.node)):
+                        holder = f2
+                coordy = any(isinstance(y, ast.Name) and ("pos" in y.id.lower() or y.id in ("p1", "p2", "xyz")) for y in ast.walk(c.args[0]))
+                keyed = False
+                if holder is not fn:
+                    # a nested key helper: used in setdefault / get / subscripts / `in`
+                    hname = holder.node.name
+                    for u in [x for x in fn.own_nodes() if isinstance(x, ast.Call) and isinstance(x.func, ast.Name) and x.func.id == hname]:
+                        p1 = fn.parents.get(u)
+                        if isinstance(p1, ast.Call) and call_name(p1) in ("get", "setdefault", "add", "pop") or isinstance(p1, (ast.Subscript, ast.Compare, ast.Dict, ast.DictComp, ast.SetComp)):
+                            keyed = True
+                else:
+                    for anc in fn.ancestors(c):
+                        if isinstance(anc, (ast.Dict, ast.DictComp, ast.SetComp, ast.Set)) or (isinstance(anc, ast.Call) and call_name(anc) in ("get", "setdefault", "add")) \
+                                or (isinstance(anc, ast.Subscript) and any(y is c for y in ast.walk(anc.slice))):
+                            keyed = True
+                if coordy and keyed:
+                    n += 1
+                    obs.append(Ob("G15", clause, fn, c, False,
+                                  "`%s` in %s turns coordinates into bucket keys at the resolution of `%s`: points closer than the tolerance are told apart whenever a rounding boundary lies between them, "
+                                  "so `distance < %s` is not what the lookup decides" % (ast.unparse(c)[:50], fn.qualname, tol_params[0], tol_params[0]),
+                                  slot="rounded-keys:%s" % fn.qualname, positive="robust"))
+    obs.append(Ob("G15", clause, fns[0], fns[0].node, True, "%d functions in scope, %d order-pairing / bucket-key constructs flagged" % (len(fns), n), construct="order and bucket inventory", slot="inventory"))
+    return obs
+
+
 def G10_defined_before_use(repo, clause, scope=ALL_LIB):
     """A local name is read only where at least one of its assignments can reach (reaching definitions over the statement CFG).  A read that NO
     assignment reaches - typically after two statements were exchanged or a line was moved above the one that defines its input - raises
